@@ -6,7 +6,7 @@
    merge order itself is compared on every run with an independent reading of the property
    through the trace parameter. *)
 From RV Require Import Model.Node Spec.DeepMerge Proofs.WfFacts Proofs.NamesFacts Proofs.NodeFacts Proofs.WalkFold Proofs.NodeTotal
-     Proofs.Refinement Proofs.NodeRefines Proofs.Twin Proofs.TwinStack.
+     Proofs.Refinement Proofs.NodeRefines Proofs.Twin Proofs.Unrender Proofs.Inline Proofs.TwinStack.
 
 (** Each class is merged the first time it is reached and never again: the record of merged
     classes never holds a name twice. *)
